@@ -7,7 +7,8 @@ per-table lock is taken, and the deletion lock is only acquired at transaction s
 Does not decide: the interleavings themselves (schedule property)."""
 import re
 
-from tmpl import site, start_sites, done_sites, suffix
+from tmpl import site, start_sites, done_sites, suffix, origin_locals
+from mir import pl_fields
 
 SEC = 'storage::secondary::'
 START = SEC + 'transaction::SecondaryTransaction::start::{closure#0}'
@@ -151,3 +152,37 @@ def run(ctx):
         ctx.ob(R3, f'{b.root}·manifest-lock≺commit', ok,
                f'{b.name}: commit_changes_with_custom_manifest (block {c.bb}) must be dominated by the manifest lock '
                f'(blocks {sorted(L)})', [site(b, c.bb)])
+
+    R4 = 'C09-R4'
+    ctx.rule(R4, 'DELETE locates its victims in the snapshot it deletes from: the SQL DELETE takes its row handlers from a child scan '
+                 'executor, whose own transaction pinned a snapshot before DeleteExecutor took the table lock; a compaction can '
+                 'commit in between. Therefore either DeleteExecutor scans through its own (locked) transaction, or '
+                 'SecondaryTransaction::delete validates each handler against its snapshot (Snapshot::get_rowsets_of) and fails '
+                 'before buffering a handler of a row-set that is gone')
+    TD = '<storage::secondary::transaction::SecondaryTransaction as storage::Transaction>::delete::{closure#0}'
+    DE = 'executor::delete::DeleteExecutor::<S>::execute::{closure#0}'
+    td, de = prog.body(TD), prog.body(DE)
+    if ctx.anchor(R4, TD, td is not None) and ctx.anchor(R4, DE, de is not None):
+        ctx.functions_analysed.update([td.name, de.name])
+        # (a) own scan?
+        fc = [c for c in de.calls if (c.fn or '') == 'storage::RowHandler::from_column']
+        scans = {c.dest['l'] for c in de.calls if (c.fn or '') == 'storage::Transaction::scan'}
+        own_scan = bool(fc) and bool(scans) and all(c.args and c.args[0]['k'] != 'const' and scans & origin_locals(de, c.args[0]['pl']['l'], depth=30)
+                                                    for c in fc)
+        # (b) validation in delete(): the push into delete_buffer is dominated by a look-up in the snapshot, and an error exit
+        #     is reachable from that look-up without passing the push
+        push = [c.bb for c in td.calls if re.search(r'Vec::<.*>::push$', c.name or '')]
+        look = [c.bb for c in td.calls if (c.fn or '').endswith('Snapshot::get_rowsets_of')]
+        validated = False
+        if push and look:
+            dom = all(td.dominated_by_any(set(look), p) for p in push)
+            errs = td.error_exit_blocks()
+            esc = any(td.reachable_from([l], avoid=set(push)) & errs for l in look)
+            validated = dom and esc
+        if ctx.anchor(R4, 'SecondaryTransaction::delete: push into delete_buffer', push):
+            ctx.ob(R4, 'DELETE·victims-from-own-snapshot', own_scan or validated,
+                   f'DeleteExecutor scans through its own transaction: {own_scan}; SecondaryTransaction::delete validates the handler '
+                   f'against its snapshot before buffering it (look-ups at {look}, push at {push}): {validated}',
+                   [site(td, p) for p in push],
+                   what='SQL DELETE buffers row handlers taken from a scan that pinned an older snapshot: after a compaction in between '
+                        'the delete vectors point at row-sets that are gone and the acknowledged DELETE removes nothing')
